@@ -278,7 +278,6 @@ func TestWitnesses(t *testing.T) {
 			continue
 		}
 		if k.Status != "open" {
-			fmt.Printf("FIXED-FINDING: property=%s %s %s: %s\n", k.Property, k.Commit, k.Signature, k.What)
 			// a fixed entry suppresses nothing; its witness must pass now
 			if k.Check != "" && len(k.Witness) > 0 {
 				if r, ok := replayers[k.Check]; ok {
